@@ -436,6 +436,15 @@ def run_one(payload):
                            ('Examples/ReservoirOutput.txt', '0, 1\n'), ('Examples/cornell_heat_demand.csv', 'x\n')):
             with open(os.path.join(dec, name), 'w') as f:
                 f.write(body)
+        # the same decoy data files next to every request slot (a relative data-file name inside an input is resolved against the
+        # package directory by every entry point, never against the directory the input happens to live in)
+        for sp in SLOT_PATHS:
+            dd = os.path.join(sandbox, os.path.dirname(sp), 'Examples')
+            os.makedirs(dd, exist_ok=True)
+            for name, body in (('ReservoirOutput.txt', '0, 1\n1, 2\n'), ('cornell_heat_demand.csv', 'x\n')):
+                if not os.path.exists(os.path.join(dd, name)):
+                    with open(os.path.join(dd, name), 'w') as f:
+                        f.write(body)
         # ---- pristine references for every request content of the history (before any operation runs) -------
         contents = {}
         refs = {}
